@@ -240,6 +240,15 @@ def dead_heads(ctx):
                     a = fd.slice_operand_pure(d, d.args[0])["atoms"] | fd.slice_operand_pure(d, d.args[1])["atoms"]
                     if call(ND("end_location")) in a and call(ND("start_location")) in a:
                         good = True
+                        # polarity: the push lies on the edge on which the locations DIFFER
+                        t_true = sw.otherwise
+                        t_false = dict(sw.targets).get(0)
+                        differ_edge = t_true if d.decl.endswith("::ne") else t_false
+                        same_edge = t_false if d.decl.endswith("::ne") else t_true
+                        if differ_edge is not None and same_edge is not None and fd.cfg.dominates(same_edge, p.bb) \
+                                and not fd.cfg.dominates(differ_edge, p.bb):
+                            ok = False
+                            detail = "the dead-head trip at %s is listed when the two locations are EQUAL (and not when they differ)" % p.line()
                         continue
                 ok = False
                 detail = "the dead-head push at %s is controlled by %s at %s instead of the location comparison" % (
@@ -268,6 +277,34 @@ def dead_heads(ctx):
                        "at %s departure/arrival are %s arithmetic steps away from an activity boundary: the trip no longer has exactly the minimal "
                        "duration anchored at the activity, so it can overlap the next activity" % (bad[0][0].line(), bad[0][1]) if bad else "",
                        loc=bad[0][0].line() if bad else None)
+    # the two documented placements, as formulas: (end_time(n1), end_time(n1) + d) and, leaving a depot, (start_time(n2) - d, start_time(n2))
+    from . import formulas
+    from .. import shape as _sh
+    o, fd = ctx.require_fn("R4.dead-head-times.formula", "T12", J("schedule_dead_head_trip"),
+                           "dead-head trip = (end(n1), end(n1) + minimal duration), or when leaving a depot (start(n2) - minimal duration, start(n2))")
+    if fd is not None:
+        tups = [i for i in fd.body.instrs() if i.kind == "assign" and i.place.local == 0 and i.rv_kind() == "agg" and i.rv.get("ak") == "tuple" and len(i.ops) == 2]
+        side = lambda s: ("side", s)
+        md = ("call", "minimal_duration_between_nodes", [("any",), ("side", 1), ("side", 2)])
+        end1 = ("call", "Node::end_time", [side(1)])
+        start2 = ("call", "Node::start_time", [side(2)])
+        forms = [(end1, ("bin", "Add", end1, md)), (("bin", "Sub", start2, md), start2)]
+        bad, good = [], 0
+        for t in tups:
+            e0 = _sh.normalise(_sh.expr(fd, t.ops[0]))
+            e1 = _sh.normalise(_sh.expr(fd, t.ops[1]))
+            if any(_sh.match(a, e0, self_param=3) and _sh.match(b, e1, self_param=3) for a, b in forms):
+                good += 1
+            else:
+                ing = _sh.calls_of(e0) | _sh.calls_of(e1)
+                if any(x.endswith("minimal_duration_between_nodes") for x in ing):
+                    bad.append((t, "(%s, %s)" % (_sh.show(e0)[:90], _sh.show(e1)[:90])))
+        if bad:
+            ctx.bad(o, "the pair returned at %s is %s" % (bad[0][0].line(), bad[0][1]), loc=bad[0][0].line())
+        elif good:
+            ctx.ok(o, "%d return(s) in a documented form" % good)
+        else:
+            ctx.undecided(o, "returned pairs not recognised")
     must_depend(ctx, "R4.dead-head-placement", "T1", J("schedule_dead_head_trip"), "ret",
                 [call(N("minimal_duration_between_nodes")), call(ND("end_time")), call(ND("start_time")), call(ND("is_depot")), "param:1", "param:2"],
                 "a dead-head trip is placed inside the gap: it leaves at the end of the first activity (or arrives at the start of the second when leaving a depot)")
